@@ -51,6 +51,15 @@ Merge(e, x) ==
                  q |-> "never", r |-> "never", failed |-> FALSE] IN
        IF KeyOf(x) = SenderKey(e) THEN EvUpd(e, f) ELSE f
 
+\* exhaustive small-scope exploration of the real table: each transition is its own segment, which
+\* starts from the state the real Server was in (as the specification would describe it)
+TraceSetState ==
+  /\ IsEvent("SetState")
+  /\ root' = Ev.root /\ nosec' = Ev.nosec
+  /\ table' = {[id |-> x.id, addr |-> x.addr, b |-> x.b, ab |-> x.ab, sec |-> x.sec, fam |-> x.fam,
+                q |-> x.q, r |-> x.r, failed |-> x.failed] : x \in Range(Ev.pre)}
+  /\ obs' = NoObs /\ ans' = NoAns
+
 TraceTableEvent ==
   /\ l <= Len(TraceLog) /\ Ev.e \in TableKinds /\ l' = l + 1
   /\ LET e == EvRec(Ev)
@@ -74,7 +83,7 @@ TraceAnswer ==
              n4 |-> Len(Ev.nodes), n6 |-> Len(Ev.nodes6)]
   /\ UNCHANGED <<rtvars, obs>>
 
-TraceNext == TraceStart \/ TraceTableEvent \/ TraceAnswer
+TraceNext == TraceStart \/ TraceSetState \/ TraceTableEvent \/ TraceAnswer
 TraceSpec == TraceInit /\ [][TraceNext]_tvars
 
 \* ---- C05
